@@ -193,7 +193,7 @@ type Options struct {
 
 // Verify symbolically executes fn against its contract and collects obligations.
 func (e *Engine) Verify(fn *ssa.Function, ct *Contract, props []string, opt Options) (vc *VC) {
-	vc = &VC{eng: e, fn: fn, contract: ct, props: props, declSet: map[string]bool{}, notes: map[string]bool{}, used: map[string]bool{},
+	vc = &VC{eng: e, fn: fn, contract: ct, props: props, declSet: map[string]bool{}, iterPid: map[string]int{}, notes: map[string]bool{}, used: map[string]bool{},
 		valueLabels: map[string]string{}, maxPaths: opt.MaxPaths, inlineDepth: opt.InlineDepth, lets: map[string]SV{}, key: opt.Key}
 	if ct != nil {
 		vc.safety = ct.Safety
